@@ -61,11 +61,26 @@ func ToAST(n *N) (res any, err error) {
 	return build(n, reflect.PtrTo(t)).Interface(), nil
 }
 
+// pickLast makes first choose the last alternative of don't-care nodes instead of the first
+// (set only by PrintableAlt, single-threaded use inside one worker).
+var pickLast bool
+
 func first(n *N) *N {
 	for n.Kind == "alt" {
-		n = n.Kids[0]
+		if pickLast {
+			n = n.Kids[len(n.Kids)-1]
+		} else {
+			n = n.Kids[0]
+		}
 	}
 	return n
+}
+
+// PrintableAlt is Printable with the last alternative of every don't-care node chosen.
+func PrintableAlt(n *N) (bool, string) {
+	pickLast = true
+	defer func() { pickLast = false }()
+	return Printable(n)
 }
 
 func build(n *N, want reflect.Type) reflect.Value {
